@@ -310,6 +310,11 @@ class PythonToIrCompiler:
                 f"Does not support {len(ra)} arguments",
             )
 
+        # The loop variable is an ordinary local variable:
+        loop_var = self.get_variable(
+            statement.target, statement.target.id, ty=ir.i64
+        )
+
         entry_block = self.builder.block
         test_block = self.builder.new_block()
         body_block = self.builder.new_block()
@@ -324,8 +329,9 @@ class PythonToIrCompiler:
         i_phi.set_incoming(entry_block, i_init)
         self.emit(ir.CJump(i_phi, "<", n2, body_block, final_block))
 
-        # Publish looping variable:
-        self.local_map[statement.target.id] = Var(i_phi, False, ir.i64)
+        # The looping variable is assigned at the start of the body:
+        self.builder.set_block(body_block)
+        self.emit(ir.Store(i_phi, loop_var.value))
 
         # Body:
         # 'continue' goes to the increment, which is the only way back:
